@@ -415,6 +415,10 @@ func checkC04(c *Ctx) {
 	laLEB(c)
 	laOrder(c, "LA-order")
 	laOptMeta(c, "LA-optmeta")
+	laTrim(c, "LA-trim")
+	laPages(c, "LA-pages")
+	laReadCounter(c, "SR-count")
+	runTD(c, "TD", map[string]bool{"reader": true})
 	_, t, _ := srcAnalysis(c)
 	runSR(c.U, r, t, func(f *ssa.Function) bool { return !c.U.isCtl(f) })
 	r.assume("value-level decoding correctness (levels, runs, PLAIN values, page chains) is NOT decided by this check")
